@@ -71,7 +71,7 @@ def find(d, path):
     return d
 
 
-FAULT_KINDS = ["enum", "below_min", "above_max", "arity", "wrong_type", "unknown_keyword", "missing_required", "list_item"]
+FAULT_KINDS = ["enum", "below_min", "above_max", "arity", "wrong_type", "unknown_keyword", "missing_required", "list_item", "repeated_item"]
 
 
 def candidate_faults(obj):
@@ -100,6 +100,12 @@ def candidate_faults(obj):
             if a.shape in ("numlist", "anchor", "hexpair", "bindpair", "mixedpair"):
                 out.append((i, k, "arity"))
                 out.append((i, k, "list_item"))
+    reps = {}
+    for i, it in enumerate(obj["items"]):
+        if it[0] == "rep":
+            reps.setdefault(it[1], []).append(i)
+    for k, idxs in reps.items():
+        out.append((tuple(idxs), k, "repeated_item"))
     out.append((None, None, "unknown_keyword"))
     if vocab.required(t) and any(it[0] == "attr" and it[1] in vocab.required(t) for it in obj["items"]):
         out.append((None, None, "missing_required"))
@@ -152,6 +158,14 @@ def apply_fault(ch, d, site, cand):
         return {"kind": kind, "dpath": list(dpath), "name": t.upper(), "object_level": True, "mpath": list(mpath), "item": None, "key": rk}
     if key not in o:
         return None
+    if kind == "repeated_item":
+        # a non-string entry in one occurrence of a repeatable keyword (PROCESSING, FORMATOPTION, INCLUDE, COMPFILTER)
+        if not isinstance(o[key], list) or len(o[key]) != len(i):
+            return None
+        j = ch.int(0, len(i) - 1)
+        o[key][j] = ch.choice([5, 2.5, True])
+        return {"kind": kind, "dpath": list(dpath), "name": key.upper(), "object_level": False, "mpath": list(mpath), "item": i[j], "key": key,
+                "value": repr(o[key][j]), "occurrence": j}
     v = fault_value(ch, t, key, kind, o[key])
     if v is None and kind != "wrong_type":
         return None
